@@ -52,94 +52,7 @@ end
 
 theorem toHtml_clientOf (v : View) : toHtml (clientOf v) = toHtml v := html_clientOf true v .firstChild
 
-/-! ## in-order programs -/
-
-theorem inOrdOps_sync (s : Str) : inOrdOps [Op.sync s] = true := by simp [inOrdOps, inOrdOp]
-
-mutual
-theorem compile_inOrd (d0 : List Nat) : (v : View) → ∀ (esc : Bool) (pos : Position),
-    inOrdOps (compile false d0 esc v pos).1 = true
-  | .text _, _, _ => by simp [compile, inOrdOps, inOrdOp]
-  | .unit, _, _ => by simp [compile, inOrdOps, inOrdOp]
-  | .onone, _, _ => by simp [compile, inOrdOps, inOrdOp]
-  | .elem tag as c, esc, pos => by
-    simp only [compile]
-    split
-    · simp [inOrdOps, inOrdOp]
-    · split
-      · have hk : inOrdOps (kidsOps tag (compile false d0 (escKids tag) c .firstChild).1) = true := by
-          unfold kidsOps
-          split
-          · simp [inOrdOps, inOrdOp]
-          · exact compile_inOrd d0 c (escKids tag) .firstChild
-        simp [inOrdOps, inOrdOp, inOrdOps_append, hk]
-      · simp [inOrdOps, inOrdOp]
-  | .tuple vs, esc, pos => by simpa [compile] using compileL_inOrd d0 vs esc pos
-  | .osome v, esc, pos => by simpa [compile] using compile_inOrd d0 v esc pos
-  | .either _ _ v, esc, pos => by simpa [compile] using compile_inOrd d0 v esc pos
-  | .vec vs, esc, pos => by
-    simp only [compile, inOrdOps_append, compileL_inOrd d0 vs esc pos, Bool.true_and]
-    split <;> simp [inOrdOps, inOrdOp]
-  | .any ty v, esc, pos => by
-    simp only [compile]
-    split
-    · exact compile_inOrd d0 v esc pos
-    · split
-      · exact compile_inOrd d0 v esc pos
-      · simp [inOrdOps, inOrdOp, compile_inOrd d0 v esc pos]
-theorem compileL_inOrd (d0 : List Nat) : (vs : List View) → ∀ (esc : Bool) (pos : Position),
-    inOrdOps (compileL false d0 esc vs pos).1 = true
-  | [], _, _ => by simp [compileL, inOrdOps]
-  | v :: vs, esc, pos => by
-    simp only [compileL, inOrdOps_append, compile_inOrd d0 v esc pos, compileL_inOrd d0 vs esc, Bool.and_self]
-end
-
-/-! ## out-of-order programs -/
-
-mutual
-theorem compile_oooWf (d0 : List Nat) : (v : View) → ∀ (esc : Bool) (pos : Position),
-    OooWf (compile true d0 esc v pos).1
-  | .text _, _, _ => by simpa [compile] using OooWf.sync _ OooWf.nil
-  | .unit, _, _ => by simpa [compile] using OooWf.sync _ OooWf.nil
-  | .onone, _, _ => by simpa [compile] using OooWf.sync _ OooWf.nil
-  | .elem tag as c, esc, pos => by
-    simp only [compile]
-    refine OooWf.sync _ ?_
-    split
-    · exact OooWf.nil
-    · split
-      · have hk : OooWf (kidsOps tag (compile true d0 (escKids tag) c .firstChild).1) := by
-          unfold kidsOps
-          split
-          · exact OooWf.sync _ OooWf.nil
-          · exact compile_oooWf d0 c (escKids tag) .firstChild
-        exact hk.append (OooWf.sync _ OooWf.nil)
-      · exact OooWf.sync _ OooWf.nil
-  | .tuple vs, esc, pos => by simpa [compile] using compileL_oooWf d0 vs esc pos
-  | .osome v, esc, pos => by simpa [compile] using compile_oooWf d0 v esc pos
-  | .either _ _ v, esc, pos => by simpa [compile] using compile_oooWf d0 v esc pos
-  | .vec vs, esc, pos => by
-    simp only [compile]
-    refine (compileL_oooWf d0 vs esc pos).append ?_
-    split
-    · exact OooWf.sync _ OooWf.nil
-    · exact OooWf.nil
-  | .any ty v, esc, pos => by
-    simp only [compile]
-    split
-    · exact compile_oooWf d0 v esc pos
-    · split
-      · exact compile_oooWf d0 v esc pos
-      · exact OooWf.triple _ _ _ (compile_oooWf d0 v true pos) OooWf.nil
-theorem compileL_oooWf (d0 : List Nat) : (vs : List View) → ∀ (esc : Bool) (pos : Position),
-    OooWf (compileL true d0 esc vs pos).1
-  | [], _, _ => by simpa [compileL] using OooWf.nil
-  | v :: vs, esc, pos => by
-    simp only [compileL]
-    exact (compile_oooWf d0 v esc pos).append (compileL_oooWf d0 vs esc _)
-end
-
-/-! ## the resolved document, when every guess is right -/
+/-! ## programs in the classes of C07's stream theorems, and their resolved documents -/
 
 /-- the resolved document of a program in the reading of its mode -/
 def docOf (ooo : Bool) (ops : List Op) : Str := if ooo then oooDocOps ops else docOps ops
@@ -159,21 +72,27 @@ theorem docOf_nil (ooo : Bool) : docOf ooo [] = [] := by
 theorem docOf_sync_cons (ooo : Bool) (s : Str) (os : List Op) : docOf ooo (Op.sync s :: os) = s ++ docOf ooo os := by
   cases ooo <;> simp [docOf, docOps, docOp, oooDocOps, oooDocOp]
 
-theorem compile_wf (ooo : Bool) (d0 : List Nat) (v : View) (esc : Bool) (pos : Position) :
-    ooo = true → OooWf (compile ooo d0 esc v pos).1 := by
-  intro h; subst h; exact compile_oooWf d0 v esc pos
+/-- the program is in the class of its mode's stream theorem (`C07_in_order`: `inOrdOps`; `C07_out_of_order`: `OooWf`) -/
+structure Good (ooo : Bool) (ops : List Op) : Prop where
+  io : ooo = false → inOrdOps ops = true
+  oo : ooo = true → OooWf ops
 
-theorem compileL_wf (ooo : Bool) (d0 : List Nat) (vs : List View) (esc : Bool) (pos : Position) :
-    ooo = true → OooWf (compileL ooo d0 esc vs pos).1 := by
-  intro h; subst h; exact compileL_oooWf d0 vs esc pos
+theorem Good.nil (ooo : Bool) : Good ooo [] := ⟨fun _ => by simp [inOrdOps], fun _ => OooWf.nil⟩
 
-theorem kidsOps_wf (ooo : Bool) (tag : String) {ops : List Op} (h : ooo = true → OooWf ops) :
-    ooo = true → OooWf (kidsOps tag ops) := by
-  intro ho
+theorem Good.sync {ooo : Bool} {os : List Op} (s : Str) (h : Good ooo os) : Good ooo (Op.sync s :: os) :=
+  ⟨fun e => by simp [inOrdOps, inOrdOp, h.io e], fun e => OooWf.sync s (h.oo e)⟩
+
+theorem Good.append {ooo : Bool} {a b : List Op} (ha : Good ooo a) (hb : Good ooo b) : Good ooo (a ++ b) :=
+  ⟨fun e => by rw [inOrdOps_append, ha.io e, hb.io e]; rfl, fun e => (ha.oo e).append (hb.oo e)⟩
+
+theorem Good.doc_append {ooo : Bool} {a : List Op} (ha : Good ooo a) (b : List Op) :
+    docOf ooo (a ++ b) = docOf ooo a ++ docOf ooo b := docOf_append ooo ha.oo b
+
+theorem Good.kids {ooo : Bool} {ops : List Op} (tag : String) (h : Good ooo ops) : Good ooo (kidsOps tag ops) := by
   unfold kidsOps
   split
-  · exact OooWf.sync _ OooWf.nil
-  · exact h ho
+  · exact Good.sync _ (Good.nil ooo)
+  · exact h
 
 /-- a program of `push_sync`s only: its document is what it leaves in the buffer -/
 theorem docOf_allSync (ooo : Bool) : ∀ (ops : List Op), ops.all isSyncOp = true → docOf ooo ops = syncCat ops
@@ -183,7 +102,7 @@ theorem docOf_allSync (ooo : Bool) : ∀ (ops : List Op), ops.all isSyncOp = tru
     cases o <;> simp only [isSyncOp] at h <;> try (exact absurd h.1 (by decide))
     rw [docOf_sync_cons, docOf_allSync ooo os h.2, syncCat]
 
-/-- the children's part of an element, when the guesses are right and a `<textarea>` has no suspended child -/
+/-- the children's part of an element, when a `<textarea>` has no suspended child -/
 theorem docOf_kidsOps (ooo : Bool) (tag : String) (ops : List Op) (body : Str) (hd : docOf ooo ops = body)
     (hs : (tag.toList != Html.tTextarea || ops.all isSyncOp) = true) :
     docOf ooo (kidsOps tag ops) = kidsBody tag body := by
@@ -194,19 +113,187 @@ theorem docOf_kidsOps (ooo : Bool) (tag : String) (ops : List Op) (body : Str) (
     rw [docOf_sync, ← docOf_allSync ooo ops ha, hd]
   · simp [ht, hd]
 
+/-- `now_or_never`: both branches in the class, both render the same document -/
+theorem Good.ite {ooo : Bool} {t e : List Op} (f : Stream.Fut) (ht : Good ooo t) (he : Good ooo e)
+    (hd : docOf ooo t = docOf ooo e) : Good ooo [Op.ite f t e] := by
+  refine ⟨fun h => ?_, fun h => ?_⟩
+  · subst h
+    have : docOps t = docOps e := by simpa [docOf] using hd
+    simp [inOrdOps, inOrdOp, ht.io rfl, he.io rfl, this]
+  · subst h
+    exact OooWf.ite f (ht.oo rfl) (he.oo rfl) (by simpa [docOf] using hd) OooWf.nil
+
+theorem docOf_ite (ooo : Bool) (f : Stream.Fut) (t e : List Op) : docOf ooo [Op.ite f t e] = docOf ooo t := by
+  cases ooo <;> simp [docOf, docOps, docOp, oooDocOps, oooDocOp]
+
+theorem Good.asyncCons {body os : List Op} (f : Stream.Fut) (hb : Good false body) (hk : Good false os) :
+    Good false (Op.nextId :: Op.async f body :: os) :=
+  ⟨fun _ => by simp [inOrdOps, inOrdOp, hb.io rfl, hk.io rfl], fun h => absurd h (by decide)⟩
+
+theorem docOf_asyncCons (f : Stream.Fut) (body os : List Op) :
+    docOf false (Op.nextId :: Op.async f body :: os) = docOf false body ++ docOf false os := by
+  simp [docOf, docOps, docOp]
+
+theorem Good.oooCons {body os : List Op} (s : Str) (f : Stream.Fut) (hb : Good true body) (hk : Good true os) :
+    Good true (Op.nextId :: Op.fallback s :: Op.ooo f true body none :: os) :=
+  ⟨fun h => absurd h (by decide), fun _ => OooWf.triple s f none (hb.oo rfl) (hk.oo rfl)⟩
+
+theorem docOf_oooCons (s : Str) (f : Stream.Fut) (body os : List Op) :
+    docOf true (Op.nextId :: Op.fallback s :: Op.ooo f true body none :: os) = docOf true body ++ docOf true os := by
+  simp [docOf, oooDocOps, oooDocOp]
+
+/-! ### the value of a `Suspend`, rendered when its future resolves (`compileB`) -/
+
 mutual
-/-- **compile_doc.** Every guess right ⇒ the program's resolved document is the synchronous HTML and the position
-    it leaves is the synchronous one -/
-theorem compile_doc (ooo : Bool) (d0 : List Nat) : (v : View) → ∀ (esc : Bool) (pos : Position),
-    Agree ooo d0 esc v pos = true →
-    docOf ooo (compile ooo d0 esc v pos).1 = html esc v pos ∧ (compile ooo d0 esc v pos).2 = after esc v pos
-  | .text s, esc, pos, _ => by simp [compile, docOf_sync, after]
-  | .unit, esc, pos, _ => by simp [compile, docOf_sync]
-  | .onone, esc, pos, _ => by simp [compile, docOf_sync]
-  | .elem tag as c, esc, pos, h => by
-    simp only [compile, html, after, and_true, docOf_sync_cons]
+/-- every `Suspend` in it guesses right ⇒ the program is in its mode's class and its resolved document is the
+    synchronous HTML followed by the document of what comes after -/
+theorem compileB_spec (ooo : Bool) : (v : View) → ∀ (esc : Bool) (pos : Position) (k : Position → List Op),
+    AgreeB ooo esc v pos = true → Good ooo (k (after esc v pos)) →
+    Good ooo (compileB ooo esc v pos k) ∧
+      docOf ooo (compileB ooo esc v pos k) = html esc v pos ++ docOf ooo (k (after esc v pos))
+  | .text s, esc, pos, k, _, hk => by
+    simp only [compileB, after] at hk ⊢
+    exact ⟨Good.sync _ hk, docOf_sync_cons ooo _ _⟩
+  | .unit, esc, pos, k, _, hk => by
+    simp only [compileB]
+    exact ⟨Good.sync _ hk, docOf_sync_cons ooo _ _⟩
+  | .onone, esc, pos, k, _, hk => by
+    simp only [compileB]
+    exact ⟨Good.sync _ hk, docOf_sync_cons ooo _ _⟩
+  | .elem tag as c, esc, pos, k, h, hk => by
+    simp only [after] at hk
+    simp only [compileB, html, after]
     by_cases hv : isVoidT tag = true
-    · simp [hv, docOf_nil]
+    · simp only [hv, if_true, List.nil_append]
+      exact ⟨Good.sync _ hk, by rw [docOf_sync_cons]; try simp⟩
+    · simp only [hv, Bool.false_eq_true, if_false]
+      by_cases he : viewExists c = true
+      · have hc : AgreeB ooo (escKids tag) c .firstChild = true ∧
+            (tag.toList != Html.tTextarea || (compileB ooo (escKids tag) c .firstChild (fun _ => [])).all isSyncOp) = true := by
+          simp only [AgreeB, Bool.or_eq_true, Bool.not_eq_true', Bool.and_eq_true] at h
+          rcases h with (h | h) | h
+          · exact absurd h hv
+          · rw [he] at h; exact absurd h (by decide)
+          · exact ⟨h.1, by simpa using h.2⟩
+        obtain ⟨g, ih⟩ := compileB_spec ooo c (escKids tag) .firstChild (fun _ => []) hc.1 (Good.nil ooo)
+        have ih' : docOf ooo (compileB ooo (escKids tag) c .firstChild (fun _ => [])) = html (escKids tag) c .firstChild := by
+          rw [ih, docOf_nil]; simp
+        have gk := Good.kids tag g
+        have gx : Good ooo (kidsOps tag (compileB ooo (escKids tag) c .firstChild (fun _ => [])) ++
+            [Op.sync ('<' :: '/' :: tag.toList ++ ['>'])]) := gk.append (Good.sync _ (Good.nil ooo))
+        simp only [he, if_true]
+        refine ⟨Good.sync _ (gx.append hk), ?_⟩
+        rw [docOf_sync_cons, gx.doc_append, gk.doc_append, docOf_kidsOps ooo tag _ _ ih' hc.2, docOf_sync]
+        simp
+      · simp only [he, Bool.false_eq_true, if_false, List.nil_append]
+        have gx : Good ooo [Op.sync ('<' :: '/' :: tag.toList ++ ['>'])] := Good.sync _ (Good.nil ooo)
+        refine ⟨Good.sync _ (gx.append hk), ?_⟩
+        rw [docOf_sync_cons, gx.doc_append, docOf_sync]
+        simp
+  | .tuple vs, esc, pos, k, h, hk => by
+    simp only [AgreeB] at h
+    simpa [compileB, html, after] using compileBL_spec ooo vs esc pos k h (by simpa [after] using hk)
+  | .osome v, esc, pos, k, h, hk => by
+    simp only [AgreeB] at h
+    simpa [compileB, html, after] using compileB_spec ooo v esc pos k h (by simpa [after] using hk)
+  | .either _ _ v, esc, pos, k, h, hk => by
+    simp only [AgreeB] at h
+    simpa [compileB, html, after] using compileB_spec ooo v esc pos k h (by simpa [after] using hk)
+  | .vec vs, esc, pos, k, h, hk => by
+    simp only [AgreeB] at h
+    simp only [after] at hk
+    have gm : Good ooo (if esc = true then [Op.sync marker] else []) := by
+      split
+      · exact Good.sync _ (Good.nil ooo)
+      · exact Good.nil ooo
+    obtain ⟨g, ih⟩ := compileBL_spec ooo vs esc pos
+      (fun p => (if esc then [Op.sync marker] else []) ++ k (if esc then .nextChild else p)) h (gm.append hk)
+    simp only [compileB, html, after]
+    refine ⟨g, ?_⟩
+    rw [ih, gm.doc_append]
+    cases esc <;> simp [docOf_sync, docOf_nil]
+  | .any ty v, esc, pos, k, h, hk => by
+    simp only [after] at hk
+    simp only [compileB, html, after]
+    simp only [AgreeB] at h
+    split
+    · rename_i hn
+      simp only [hn] at h
+      exact compileB_spec ooo v esc pos k h hk
+    · rename_i f hf
+      simp only [hf] at h
+      cases ooo with
+      | true =>
+        simp only [if_true, Bool.and_eq_true, decide_eq_true_eq] at h ⊢
+        obtain ⟨⟨he, ha⟩, hp⟩ := h
+        subst he
+        obtain ⟨gt, dt⟩ := compileB_spec true v true pos k ha hk
+        obtain ⟨gb, db⟩ := compileB_spec true v true pos (fun _ => []) ha (Good.nil true)
+        have hk' : Good true (k pos) := by rw [← hp]; exact hk
+        have ge : Good true ([Op.nextId, Op.fallback marker,
+            Op.ooo (suspFut f) true (compileB true true v pos (fun _ => [])) none] ++ k pos) := Good.oooCons _ _ gb hk'
+        have de : docOf true ([Op.nextId, Op.fallback marker,
+            Op.ooo (suspFut f) true (compileB true true v pos (fun _ => [])) none] ++ k pos) =
+            html true v pos ++ docOf true (k (after true v pos)) := by
+          rw [show ([Op.nextId, Op.fallback marker, Op.ooo (suspFut f) true (compileB true true v pos (fun _ => [])) none] ++ k pos)
+              = Op.nextId :: Op.fallback marker :: Op.ooo (suspFut f) true (compileB true true v pos (fun _ => [])) none :: k pos from rfl,
+            docOf_oooCons, db, docOf_nil, hp]
+          simp
+        exact ⟨Good.ite _ gt ge (by rw [dt, de]), by rw [docOf_ite, dt]⟩
+      | false =>
+        simp only [Bool.false_eq_true, if_false, Bool.and_eq_true, decide_eq_true_eq] at h ⊢
+        obtain ⟨ha, hp⟩ := h
+        obtain ⟨gt, dt⟩ := compileB_spec false v esc pos k ha hk
+        obtain ⟨gb, db⟩ := compileB_spec false v esc pos (fun _ => []) ha (Good.nil false)
+        have hk' : Good false (k .nextChild) := by rw [← hp]; exact hk
+        have ge : Good false ([Op.nextId, Op.async (suspFut f) (compileB false esc v pos (fun _ => []))] ++ k .nextChild) :=
+          Good.asyncCons _ gb hk'
+        have de : docOf false ([Op.nextId, Op.async (suspFut f) (compileB false esc v pos (fun _ => []))] ++ k .nextChild) =
+            html esc v pos ++ docOf false (k (after esc v pos)) := by
+          rw [show ([Op.nextId, Op.async (suspFut f) (compileB false esc v pos (fun _ => []))] ++ k .nextChild)
+              = Op.nextId :: Op.async (suspFut f) (compileB false esc v pos (fun _ => [])) :: k .nextChild from rfl,
+            docOf_asyncCons, db, docOf_nil, hp]
+          simp
+        exact ⟨Good.ite _ gt ge (by rw [dt, de]), by rw [docOf_ite, dt]⟩
+theorem compileBL_spec (ooo : Bool) : (vs : List View) → ∀ (esc : Bool) (pos : Position) (k : Position → List Op),
+    AgreeBL ooo esc vs pos = true → Good ooo (k (afterL esc vs pos)) →
+    Good ooo (compileBL ooo esc vs pos k) ∧
+      docOf ooo (compileBL ooo esc vs pos k) = htmlL esc vs pos ++ docOf ooo (k (afterL esc vs pos))
+  | [], esc, pos, k, _, hk => by
+    simp only [compileBL, htmlL, afterL] at hk ⊢
+    exact ⟨hk, by simp⟩
+  | v :: vs, esc, pos, k, h, hk => by
+    simp only [AgreeBL, Bool.and_eq_true] at h
+    simp only [afterL] at hk
+    obtain ⟨g2, d2⟩ := compileBL_spec ooo vs esc (after esc v pos) k h.2 hk
+    obtain ⟨g1, d1⟩ := compileB_spec ooo v esc pos (fun p => compileBL ooo esc vs p k) h.1 g2
+    simp only [compileBL, htmlL, afterL]
+    exact ⟨g1, by rw [d1, d2]; simp⟩
+end
+
+/-! ### the view at render time (`compile`) -/
+
+mutual
+/-- **compile_spec.** Every guess right ⇒ the program is in its mode's class, its resolved document is the
+    synchronous HTML, and the position it leaves is the synchronous one -/
+theorem compile_spec (ooo : Bool) (d0 : List Nat) : (v : View) → ∀ (esc : Bool) (pos : Position),
+    Agree ooo d0 esc v pos = true →
+    Good ooo (compile ooo d0 esc v pos).1 ∧ docOf ooo (compile ooo d0 esc v pos).1 = html esc v pos ∧
+      (compile ooo d0 esc v pos).2 = after esc v pos
+  | .text s, esc, pos, _ => by
+    simp only [compile, after]
+    exact ⟨Good.sync _ (Good.nil ooo), docOf_sync ooo _, by first | rfl | trivial⟩
+  | .unit, esc, pos, _ => by
+    simp only [compile]
+    exact ⟨Good.sync _ (Good.nil ooo), docOf_sync ooo _, by first | rfl | trivial⟩
+  | .onone, esc, pos, _ => by
+    simp only [compile]
+    exact ⟨Good.sync _ (Good.nil ooo), docOf_sync ooo _, by first | rfl | trivial⟩
+  | .elem tag as c, esc, pos, h => by
+    simp only [compile, html, after, and_true]
+    by_cases hv : isVoidT tag = true
+    · simp only [hv, if_true]
+      exact ⟨Good.sync _ (Good.nil ooo), by rw [docOf_sync]; try simp⟩
     · simp only [hv, Bool.false_eq_true, if_false]
       by_cases he : viewExists c = true
       · have hc : Agree ooo d0 (escKids tag) c .firstChild = true ∧
@@ -216,73 +303,100 @@ theorem compile_doc (ooo : Bool) (d0 : List Nat) : (v : View) → ∀ (esc : Boo
           · exact absurd h hv
           · rw [he] at h; exact absurd h (by decide)
           · exact ⟨h.1, by simpa using h.2⟩
-        have ih := (compile_doc ooo d0 c (escKids tag) .firstChild hc.1).1
+        obtain ⟨g, ih, _⟩ := compile_spec ooo d0 c (escKids tag) .firstChild hc.1
+        have gk := Good.kids tag g
+        have gx : Good ooo (kidsOps tag (compile ooo d0 (escKids tag) c .firstChild).1 ++
+            [Op.sync ('<' :: '/' :: tag.toList ++ ['>'])]) := gk.append (Good.sync _ (Good.nil ooo))
         simp only [he, if_true]
-        rw [docOf_append ooo (kidsOps_wf ooo tag (compile_wf ooo d0 c _ _)),
-          docOf_kidsOps ooo tag _ _ ih hc.2, docOf_sync]
+        refine ⟨Good.sync _ gx, ?_⟩
+        rw [docOf_sync_cons, gk.doc_append, docOf_kidsOps ooo tag _ _ ih hc.2, docOf_sync]
         simp
-      · simp only [he, Bool.false_eq_true, if_false, List.nil_append, docOf_sync]
+      · simp only [he, Bool.false_eq_true, if_false, List.nil_append]
+        refine ⟨Good.sync _ (Good.sync _ (Good.nil ooo)), ?_⟩
+        rw [docOf_sync_cons, docOf_sync]
         simp
   | .tuple vs, esc, pos, h => by
     simp only [Agree] at h
-    simpa [compile, html, after] using compileL_doc ooo d0 vs esc pos h
+    simpa [compile, html, after] using compileL_spec ooo d0 vs esc pos h
   | .osome v, esc, pos, h => by
     simp only [Agree] at h
-    simpa [compile, html, after] using compile_doc ooo d0 v esc pos h
+    simpa [compile, html, after] using compile_spec ooo d0 v esc pos h
   | .either _ _ v, esc, pos, h => by
     simp only [Agree] at h
-    simpa [compile, html, after] using compile_doc ooo d0 v esc pos h
+    simpa [compile, html, after] using compile_spec ooo d0 v esc pos h
   | .vec vs, esc, pos, h => by
     simp only [Agree] at h
-    have ih := compileL_doc ooo d0 vs esc pos h
+    obtain ⟨g, ih1, ih2⟩ := compileL_spec ooo d0 vs esc pos h
     simp only [compile, html, after]
-    rw [docOf_append ooo (compileL_wf ooo d0 vs esc pos), ih.1]
-    cases esc with
-    | true => simp [docOf_sync]
-    | false => simp [docOf_nil, ih.2]
+    have gm : Good ooo (if esc = true then [Op.sync marker] else []) := by
+      split
+      · exact Good.sync _ (Good.nil ooo)
+      · exact Good.nil ooo
+    refine ⟨g.append gm, ?_, ?_⟩
+    · rw [g.doc_append, ih1]
+      cases esc <;> simp [docOf_sync, docOf_nil]
+    · cases esc <;> simp [ih2]
   | .any ty v, esc, pos, h => by
     simp only [compile, html, after]
     simp only [Agree] at h
     split
     · rename_i hn
       simp only [hn] at h
-      exact compile_doc ooo d0 v esc pos h
+      exact compile_spec ooo d0 v esc pos h
     · rename_i f hf
       simp only [hf] at h
       by_cases hd : d0.contains f = true
       · simp only [hd, if_true] at h ⊢
-        exact compile_doc ooo d0 v esc pos h
+        exact compile_spec ooo d0 v esc pos h
       · simp only [hd, Bool.false_eq_true, if_false] at h ⊢
         cases ooo with
         | true =>
           simp only [if_true, Bool.and_eq_true, decide_eq_true_eq] at h ⊢
           obtain ⟨⟨he, ha⟩, hp⟩ := h
           subst he
-          have ih := compile_doc true d0 v true pos ha
-          refine ⟨?_, hp.symm⟩
-          have : docOf true (compile true d0 true v pos).1 = oooDocOps (compile true d0 true v pos).1 := by
-            simp [docOf]
-          rw [← ih.1, this]
-          simp [docOf, oooDocOps, oooDocOp]
+          obtain ⟨gb, db⟩ := compileB_spec true v true pos (fun _ => []) ha (Good.nil true)
+          refine ⟨Good.oooCons _ _ gb (Good.nil true), ?_, hp.symm⟩
+          rw [docOf_oooCons, db, docOf_nil]
+          simp
         | false =>
           simp only [Bool.false_eq_true, if_false, Bool.and_eq_true, decide_eq_true_eq] at h ⊢
           obtain ⟨ha, hp⟩ := h
-          have ih := compile_doc false d0 v esc pos ha
-          refine ⟨?_, hp.symm⟩
-          rw [← ih.1]
-          simp [docOf, docOps, docOp]
-theorem compileL_doc (ooo : Bool) (d0 : List Nat) : (vs : List View) → ∀ (esc : Bool) (pos : Position),
+          obtain ⟨gb, db⟩ := compileB_spec false v esc pos (fun _ => []) ha (Good.nil false)
+          refine ⟨Good.asyncCons _ gb (Good.nil false), ?_, hp.symm⟩
+          rw [docOf_asyncCons, db, docOf_nil]
+          simp
+theorem compileL_spec (ooo : Bool) (d0 : List Nat) : (vs : List View) → ∀ (esc : Bool) (pos : Position),
     AgreeL ooo d0 esc vs pos = true →
-    docOf ooo (compileL ooo d0 esc vs pos).1 = htmlL esc vs pos ∧ (compileL ooo d0 esc vs pos).2 = afterL esc vs pos
-  | [], esc, pos, _ => by simp [compileL, htmlL, afterL, docOf_nil]
+    Good ooo (compileL ooo d0 esc vs pos).1 ∧ docOf ooo (compileL ooo d0 esc vs pos).1 = htmlL esc vs pos ∧
+      (compileL ooo d0 esc vs pos).2 = afterL esc vs pos
+  | [], esc, pos, _ => by
+    simp only [compileL, htmlL, afterL]
+    exact ⟨Good.nil ooo, docOf_nil ooo, by first | rfl | trivial⟩
   | v :: vs, esc, pos, h => by
     simp only [AgreeL, Bool.and_eq_true] at h
-    have i1 := compile_doc ooo d0 v esc pos h.1
-    have i2 := compileL_doc ooo d0 vs esc (after esc v pos) h.2
+    obtain ⟨g1, d1, p1⟩ := compile_spec ooo d0 v esc pos h.1
+    obtain ⟨g2, d2, p2⟩ := compileL_spec ooo d0 vs esc (after esc v pos) h.2
     simp only [compileL, htmlL, afterL]
-    rw [docOf_append ooo (compile_wf ooo d0 v esc pos), i1.1, i1.2, i2.1, i2.2]
-    exact ⟨rfl, rfl⟩
+    rw [p1]
+    exact ⟨g1.append g2, by rw [g1.doc_append, d1, d2], p2⟩
 end
+
+/-- the program of a view whose guesses are right is an in-order program in the sense of `C07_in_order` -/
+theorem compile_inOrd (d0 : List Nat) (v : View) (esc : Bool) (pos : Position)
+    (h : Agree false d0 esc v pos = true) : inOrdOps (compile false d0 esc v pos).1 = true :=
+  (compile_spec false d0 v esc pos h).1.io rfl
+
+/-- … and a well-formed out-of-order program in the sense of `C07_out_of_order` -/
+theorem compile_oooWf (d0 : List Nat) (v : View) (esc : Bool) (pos : Position)
+    (h : Agree true d0 esc v pos = true) : OooWf (compile true d0 esc v pos).1 :=
+  (compile_spec true d0 v esc pos h).1.oo rfl
+
+/-- **compile_doc.** Every guess right ⇒ the program's resolved document is the synchronous HTML and the position
+    it leaves is the synchronous one -/
+theorem compile_doc (ooo : Bool) (d0 : List Nat) (v : View) (esc : Bool) (pos : Position)
+    (h : Agree ooo d0 esc v pos = true) :
+    docOf ooo (compile ooo d0 esc v pos).1 = html esc v pos ∧ (compile ooo d0 esc v pos).2 = after esc v pos :=
+  (compile_spec ooo d0 v esc pos h).2
 
 theorem all_append_sync (a b : List Op) : (a ++ b).all isSyncOp = (a.all isSyncOp && b.all isSyncOp) := by
   simp [List.all_append]
